@@ -173,6 +173,11 @@ def run(rep, tier, seed):
     impl = engine.run_lines(engine.impl_bin('r'), lines, timeout=600)
     model = engine.run_lines(engine.MODEL, lines, timeout=1800)
     mism = [i for i in range(len(lines)) if impl[i] != model[i]]
+    # the verified planarity certificate (coq/theories/Cert13.v), evaluated by the model on its own run of every
+    # exact-family subdivision; it speaks about the implementation's output wherever the two outputs are identical
+    cert_idx = [i for i, (c, st) in enumerate(meta) if st == 's' and c.family in EXACT]
+    cert_out = engine.run_lines(engine.MODEL, ['planar' + lines[i][len('subdiv'):] for i in cert_idx], timeout=1800)
+    cert = {i: engine.payload(o).strip() if o.startswith('planar') else '?' for i, o in zip(cert_idx, cert_out)}
     fails = []
     known = 0
     nontriv = set()
@@ -190,6 +195,10 @@ def run(rep, tier, seed):
                 continue          # outcome failures belong to C03
             exact = c.family in EXACT
             bad = judge_subdiv(c, evs, exact, c.op in 'UX')
+            if cert.get(i) == '0' and impl[i] == model[i]:
+                bad.append('the verified planarity certificate (Cert13.planar_check) rejects the subdivision')
+            elif cert.get(i) == '?':
+                bad.append('the model did not evaluate the planarity certificate')
             if len(evs) > 2 * len(input_edges(c.lhs) + input_edges(c.rhs)):
                 nontriv.add(lines[i])
         if bad:
@@ -209,7 +218,10 @@ def run(rep, tier, seed):
                    'links, left-first, non-zero length on all families; planarity (all pairs) and exact coverage of every input edge with '
                    'rational arithmetic on the exact families; non-trivial = the sweep divided at least one edge.')
     cov['samples'] = [lines[0][:400], lines[1][:400]]
-    cov['trusted_base'] = c01.TRUSTED + ['planarity / coverage reference is exact rational Python code']
+    cov['planarity_certificates'] = {'evaluated': len(cert), 'accepted': sum(1 for v in cert.values() if v == '1'),
+                                     'rejected': sum(1 for v in cert.values() if v == '0'),
+                                     'sweep_did_not_return': sum(1 for v in cert.values() if v == '-')}
+    cov['trusted_base'] = c01.TRUSTED + ['planarity: the Coq-verified certificate Cert13.planar_check on the model run (proved sound), doubled by exact rational Python code on the implementation output; coverage reference is exact rational Python code']
     rep.log('%d stage runs: %d failing, %d known, %d model mismatches' % (len(lines), len(fails), known, len(mism)))
     if fails:
         i, bad = fails[0]
